@@ -73,14 +73,14 @@ def judge_apply(inp, obs, lr):
         return {"expected": {"shape": m["shape"]}, "observed": {"shape": obs["shape"]}, "tags": {"kind": inp["kind"], "mode": inp["mode"], "shape": True}}
     mp = N.dec(m["proj"])
     ip = np.array(obs["proj"])
-    if mp.shape != ip.shape or not O.allclose(ip, mp, 1e-9):
+    if mp.shape != ip.shape or not O.data_proj_eq(inp["kind"], ip, mp, 1e-9):
         return {"expected": {"proj_shape": list(mp.shape)}, "observed": {"proj_shape": list(ip.shape)}, "tags": {"kind": inp["kind"], "mode": inp["mode"], "block": "proj"}}
     if (m["aux"] is None) != (obs["aux"] is None):
         return {"expected": {"aux": m["aux"] is not None}, "observed": {"aux": obs["aux"] is not None}, "tags": {"kind": inp["kind"], "block": "aux-presence"}}
     if m["aux"] is not None:
         ma = N.dec(m["aux"])
         ia = np.array(obs["aux"])
-        if ma.shape != ia.shape or not O.allclose(ia, ma, 1e-9):
+        if ma.shape != ia.shape or not O.aux_proj_eq(inp["kind"], ia, ma, 1e-9):
             return {"expected": {"aux_shape": list(ma.shape)}, "observed": {"aux_shape": list(ia.shape)}, "tags": {"kind": inp["kind"], "mode": inp["mode"], "block": "aux"}}
     return None
 
